@@ -4,6 +4,7 @@ import (
 	"fmt"
 	"go/token"
 	"go/types"
+	"math/big"
 	"strings"
 
 	"golang.org/x/tools/go/ssa"
@@ -68,6 +69,8 @@ func init() {
 		"sync.(*WaitGroup).Wait":  noop,
 
 		"sort.Search": sortSearch,
+		"sort.Sort":   sortSort,
+		"sort.Stable": sortSort,
 
 		"math/bits.LeadingZeros64":  bitsLeadingZeros(64),
 		"math/bits.LeadingZeros32":  bitsLeadingZeros(32),
@@ -229,16 +232,49 @@ func registerAtomic() {
 		ty := ty
 		libCalls["sync/atomic.(*"+ty+").Load"] = func(x *Exec, fr *Frame, st *State, site ssa.Instruction, c *ssa.CallCommon, args []Val, rt types.Type) Val {
 			x.assumed["sync/atomic operations are sequential reads/writes (no interleaving modelled)"] = true
+			if a, vt := x.atomicV(args[0], c.Args[0].Type()); a != nil {
+				v := x.loadAddr(st, a)
+				if ty == "Bool" {
+					return Val{T: mkNot(mkEq(v, x.intConst(big.NewInt(0), vt))), Typ: rt}
+				}
+				return Val{T: v, Typ: rt}
+			}
 			a := x.atomicCell(args[0], c.Args[0].Type(), rt)
 			return Val{T: x.loadAddr(st, a), Typ: rt}
 		}
 		libCalls["sync/atomic.(*"+ty+").Store"] = func(x *Exec, fr *Frame, st *State, site ssa.Instruction, c *ssa.CallCommon, args []Val, rt types.Type) Val {
 			x.assumed["sync/atomic operations are sequential reads/writes (no interleaving modelled)"] = true
+			if a, vt := x.atomicV(args[0], c.Args[0].Type()); a != nil {
+				v := args[1].T
+				if ty == "Bool" {
+					v = mkIte(v, x.intConst(big.NewInt(1), vt), x.intConst(big.NewInt(0), vt))
+				}
+				x.storeAddr(st, a, v)
+				return Val{Typ: rt}
+			}
 			a := x.atomicCell(args[0], c.Args[0].Type(), c.Args[1].Type())
 			x.storeAddr(st, a, args[1].T)
 			return Val{Typ: rt}
 		}
 	}
+}
+
+// atomicV addresses the value field "v" of a sync/atomic typed struct
+// (atomic.Bool keeps a uint32 that is non-zero for true).
+func (x *Exec) atomicV(p Val, ptrT types.Type) (*Addr, types.Type) {
+	st := pointee(ptrT)
+	if st == nil {
+		return nil, nil
+	}
+	su, ok := asStruct(st)
+	if !ok {
+		return nil, nil
+	}
+	idx, _ := findField(su, "v")
+	if idx < 0 {
+		return nil, nil
+	}
+	return x.fieldAddr(p, st, idx), su.Field(idx).Type()
 }
 
 // atomicCell is a ghost cell holding the logical value of an atomic.X struct.
@@ -345,6 +381,10 @@ func (x *Exec) timeMethodSpec(env *SpecEnv, recv Val, e EMethod) Val {
 
 func (x *Exec) ifaceContractCall(fr *Frame, st *State, site ssa.Instruction, c *ssa.CallCommon, is *IfaceSpec, ms *IfaceMethodSpec, recv Val, args []Val, rt types.Type) Val {
 	x.assumed["interface contract (environment assumption): "+is.Name+"."+ms.Name] = true
+	if ms.Pure && len(ms.Ensures) == 0 && len(ms.Requires) == 0 {
+		// a pure observer: an uninterpreted function of the receiver and arguments
+		return x.ifaceUF(is, ms, recv, args, c.Signature(), st)
+	}
 	env := &SpecEnv{x: x, vars: map[string]Val{}, cur: st, old: st}
 	if fr != nil && fr.fn.Pkg != nil {
 		env.pkg = fr.fn.Pkg.Pkg
